@@ -294,6 +294,48 @@ def r12_4(ctx: Ctx, rep: Report) -> None:
                     rep.violation(q, f"{acc}.append(...) x{worst} in one iteration", "a line can contribute more than one item", where(f))
 
 
+def _accumulator(f: Func) -> Optional[str]:
+    """Local list that receives `.append(...)` in the function and occurs in the value stored to self.items."""
+    appended = {src(n.func.value) for n in own_nodes(f.node) if isinstance(n, ast.Call) and isinstance(n.func, ast.Attribute) and n.func.attr == "append" and isinstance(n.func.value, ast.Name)}
+    for n in own_nodes(f.node):
+        if isinstance(n, ast.Assign):
+            for t in n.targets:
+                if isinstance(t, ast.Attribute) and src(t.value) == "self" and t.attr in ("items", "_items"):
+                    for nm in names_in(n.value):
+                        if nm in appended:
+                            return nm
+    return None
+
+
+ALLOWED_LINE_FILTERS = "truthiness of the element, isinstance(element, ...), `element is not None`"
+
+
+def line_filters(ctx: Ctx, rep: Report) -> None:
+    """R12.7: between the text and the item list, lines are filtered only by emptiness / 'parser returned no object'."""
+    rep.rule("R12.7")
+    n = 0
+    for q in ("helpers.lines_wo_spaces", "Acl.line.setter", "AceGroup.line.setter", "AddrGroup.line.setter"):
+        f = ctx.func(q)
+        for x in own_nodes(f.node):
+            if isinstance(x, (ast.ListComp, ast.GeneratorExp, ast.SetComp)):
+                for g in x.generators:
+                    tv = src(g.target)
+                    for c in g.ifs:
+                        n += 1
+                        ok = src(c) == tv
+                        if isinstance(c, ast.Call) and src(c.func) == "isinstance" and c.args and src(c.args[0]) == tv:
+                            ok = True
+                        if isinstance(c, ast.Compare) and src(c.left) == tv and isinstance(c.ops[0], ast.IsNot) and isinstance(c.comparators[0], ast.Constant) and c.comparators[0].value is None:
+                            ok = True
+                        # flattening of the report values etc. (no line variable involved) is not a line filter
+                        if ok:
+                            rep.ok(f"{q}: filter `{snippet(c, 40)}`", "drops only empty lines / lines for which no object was built", nontrivial=False, where=where(f, c))
+                        else:
+                            rep.violation(q, f"filter `{snippet(c)}`", f"body lines are filtered by a condition other than {ALLOWED_LINE_FILTERS}: they vanish before the per-line reporting can name them", where(f, c), inp="a body line starting with the filtered pattern")
+    rep.instance(n)
+    rep.floor(2, "comprehension filters between text and items")
+
+
 def r12_5(ctx: Ctx, rep: Report) -> None:  # noqa: C901
     rep.rule("R12.5")
     for q in ("AddrGroup.line.setter", "AddrGroup.items.setter"):
@@ -302,13 +344,11 @@ def r12_5(ctx: Ctx, rep: Report) -> None:  # noqa: C901
         loops = [n for n in cfg.live if n.kind == "for"]
         rep.require(bool(loops), f"{q}: member loop vanished")
         # accumulator = the list stored to self.items at the end
-        acc = None
-        for n in own_nodes(f.node):
-            if isinstance(n, ast.Assign):
-                for t in n.targets:
-                    if isinstance(t, ast.Attribute) and src(t.value) == "self" and t.attr in ("items", "_items") and isinstance(n.value, ast.Name):
-                        acc = n.value.id
-        rep.require(acc is not None, f"{q}: accumulator list vanished")
+        acc = _accumulator(f)
+        if acc is None:
+            rep.instance()
+            rep.violation(q, "self.items = ...", "the member loop does not accumulate into the list that is stored", where(f))
+            continue
         loop = loops[0]
         lvars = names_in(loop.ast.target)
         # names derived from the loop variable inside the body
@@ -359,12 +399,7 @@ def r12_5(ctx: Ctx, rep: Report) -> None:  # noqa: C901
     f = ctx.func("AddrGroup.line.setter")
     rep.instance()
     cfg = ctx.cfg(f)
-    acc = None
-    for n in own_nodes(f.node):
-        if isinstance(n, ast.Assign):
-            for t in n.targets:
-                if isinstance(t, ast.Attribute) and src(t.value) == "self" and t.attr in ("items", "_items") and isinstance(n.value, ast.Name):
-                    acc = n.value.id
+    acc = _accumulator(f)
     okempty = False
     for p in function_paths(cfg):
         if not p.raises:
@@ -416,5 +451,6 @@ def run(ctx: Ctx, rep: Report, tier: str) -> None:
     r12_2(ctx, rep)
     r12_3(ctx, rep)
     r12_4(ctx, rep)
+    line_filters(ctx, rep)
     r12_5(ctx, rep)
     r12_6(ctx, rep)
